@@ -4,6 +4,7 @@ import (
 	"bytes"
 	"errors"
 	"fmt"
+	"io"
 	"strings"
 
 	"github.com/bytedance/gopkg/lang/mcache"
@@ -139,7 +140,7 @@ func (s *readerSys) Key() string {
 	b.WriteString(vdump.Key(s.dr, vdump.Opt{Content: true}))
 	fmt.Fprintf(&b, "|p%d|b%d|", s.pos, s.base)
 	if s.env != nil {
-		fmt.Fprintf(&b, "s%d/%d/%v|", s.env.pos, s.env.zr, s.env.ErrReturned)
+		fmt.Fprintf(&b, "s%d/%d/%d/%v|", s.env.pos, s.env.zr, s.env.tz, s.env.ErrReturned)
 	}
 	if s.cfg.Retain {
 		for _, k := range s.kept {
@@ -170,7 +171,11 @@ func (s *readerSys) Apply(op int, check bool) (what, sig string) {
 	}
 	avail := len(s.D) - s.pos
 	E := s.termErr()
-	errOK := func(err error) bool { return err != nil && (E == nil || errors.Is(err, E)) }
+	// the source's own error is what surfaces - unless the source has not produced it yet: a reader may give up on a source
+	// that keeps answering (0, nil) with io.ErrNoProgress (after how many empty reads is its own business)
+	errOK := func(err error) bool {
+		return err != nil && (E == nil || errors.Is(err, E) || (s.env != nil && !s.env.ErrReturned && errors.Is(err, io.ErrNoProgress)))
+	}
 	pi := mc.Try(func() {
 		switch o.kind {
 		case "next", "peek":
